@@ -231,11 +231,11 @@ Proof. exact expand_keeps. Qed.
 Print Assumptions C18_expand_wildcards_keeps.
 (* ... so `from dataclasses import dataclass, ...` placed after the star imports, or star imports of modules with an
    __all__, keep @dataclass recognised (the complement is finding C18-F10) ... *)
-Theorem C18_decorator_recognised : forall L m md old,
-  nth_error L m = Some md -> lookup_e helper (fst (visit md)) = Some old -> e_bind old = BStd ->
+Theorem C18_decorator_recognised : forall h L m md old,
+  nth_error L m = Some md -> lookup_e h (fst (visit md)) = Some old -> e_bind old = BStd ->
   (forall line m', In (line, m') (snd (visit md)) ->
-     line <= e_line old \/ match nth_error L m' with Some md' => hidden md' helper = true | None => True end) ->
-  recognised true L m = true.
+     line <= e_line old \/ match nth_error L m' with Some md' => hidden md' h = true | None => True end) ->
+  recognised_h h true L m = true.
 Proof. exact recognised_sufficient. Qed.
 Print Assumptions C18_decorator_recognised.
 (* ... and a class whose decorator is recognised and whose bases resolve is read as it is written. *)
@@ -252,6 +252,14 @@ Theorem C18_layouts_computed :
   recognised true L_reexport 2 = true /\ base_resolves true L_reexport 2 0 = true.
 Proof. exact layouts_computed. Qed.
 Print Assumptions C18_layouts_computed.
+(* helper names re-exported by a module of the package (explicitly or through a star import) are one hop too far: the same
+   finding for `dataclass`, `field`, `KW_ONLY` individually *)
+Theorem C18_reexported_helpers_computed :
+  recognised true L_compat_from 2 = true /\ recognised_h h_field true L_compat_from 2 = false /\ recognised_h h_kwonly true L_compat_from 2 = false /\
+  recognised true L_compat_star 2 = false /\ recognised false L_compat_star 2 = false /\ recognised_h h_field true L_compat_star 2 = true /\
+  recognised_h h_classvar true L_compat_star 2 = false.
+Proof. exact compat_computed. Qed.
+Print Assumptions C18_reexported_helpers_computed.
 (* were on_package_loaded fired before expand_wildcards, bases arriving by star import would not resolve *)
 Theorem C18_event_must_follow_wildcards :
   base_resolves false L_wild 2 0 = false /\ base_resolves false L_all 2 0 = false /\ base_resolves false L_reexport 2 0 = false /\
@@ -279,9 +287,11 @@ Print Assumptions C18_translated_rules_are_the_model.
 (* ... and so is the skeleton around them: GriffeLoader._post_load fires on_package_loaded after expand_exports and
    expand_wildcards; the built-in extension is always loaded; on_package_loaded is `_apply_recursively(pkg, set())` alone
    (a fresh set of seen paths per event, no other state on the extension); the class branch of _apply_recursively is
-   label, guard on "__init__", synthesise, delete InitVar members, nested classes - the order of Model/C18_machine.v : process. *)
+   label, guard on "__init__", synthesise, delete InitVar members, nested classes - the order of Model/C18_machine.v : process;
+   Expr.is_classvar (the visitor's class-attribute label, all the extension knows of ClassVar) goes by the last name of the
+   canonical path, so every import route of ClassVar is recognised. *)
 Theorem C18_translated_skeleton_is_the_model :
   post_load_steps = [PExports; PWildcards; PEvent] /\ builtin_extension_always_loaded = true /\
-  seen_set_fresh_per_event = true /\ class_steps = [CLabel; CGuard; CInit; CPrune; CNested].
+  seen_set_fresh_per_event = true /\ class_steps = [CLabel; CGuard; CInit; CPrune; CNested] /\ classvar_by_last_name = true.
 Proof. exact skeleton_is_model. Qed.
 Print Assumptions C18_translated_skeleton_is_the_model.
